@@ -497,8 +497,11 @@ func (fr *Frame) binop(n *vnode, i *ssa.BinOp, av, bv *Val) *Term {
 		var r *Term
 		if a.S == SSlice || b.S == SSlice {
 			// slice == nil
+			// (Go only allows comparing a slice with nil: one operand is the nil literal)
 			s := a
-			if b.S == SSlice {
+			if a.S == SSlice && SArr(a).IsIntLit() && (b.S != SSlice || !SArr(b).IsIntLit()) {
+				s = b
+			} else if a.S != SSlice {
 				s = b
 			}
 			r = Eq(SArr(s), IntLit(0))
@@ -976,7 +979,14 @@ func (fr *Frame) convert(n *vnode, i *ssa.Convert) *Val {
 	case fi&types.IsString != 0 && ti&types.IsString != 0:
 		return &Val{T: t, Ty: i.Type()}
 	case fi&types.IsInteger != 0 && ti&types.IsString != 0:
-		return x.freshVal("runestr", i.Type())
+		// string(rune): the UTF-8 encoding, 1..4 bytes; one byte holding the value itself below 0x80
+		rv := x.freshVal("runestr", i.Type())
+		iv := x.asInt(t)
+		ln := x.strLen(rv.T)
+		x.eng.DeclareUF("strAt", SBV(8), SStr, SInt)
+		x.vc.Assume(And(Ge(ln, IntLit(1)), Le(ln, IntLit(4)),
+			Implies(And(Ge(iv, IntLit(0)), Lt(iv, IntLit(128))), And(Eq(ln, IntLit(1)), Eq(BV2Nat(App("strAt", SBV(8), rv.T, IntLit(0))), iv)))))
+		return rv
 	}
 	if to.Kind() == types.UnsafePointer || from.Kind() == types.UnsafePointer {
 		bail("unsafe.Pointer conversion in %s", fr.fn)
